@@ -32,7 +32,8 @@ def gen_case(rng):
     norms_in = [rng.choice([None, None, 'linear(0.5, 1)', 'minmax']) for _ in range(nin)]
     return dict(nin=nin, alpha_lim=alpha_lim, beta_lim=beta_lim, surr_lim=surr_lim, kpl=kpl, domains=domains,
                 norms_in=norms_in, nsteps=rng.randint(3, 9), fseed=rng.randrange(10 ** 9),
-                vectorized=rng.random() < 0.5, cost=rng.choice(['none', 'const', 'alpha']))
+                vectorized=rng.random() < 0.5, cost=rng.choice(['none', 'const', 'alpha']),
+                failing=rng.random() < 0.3)
 
 
 def cost_fn(kind):
@@ -55,9 +56,21 @@ def run_component_case(ctx, res, case, lines, post):
     rng = random.Random(case['fseed'])
     nin = case['nin']
     f = c05.make_f(random.Random(case['fseed'] + 1), nin, 1, 'exp')
+    # optionally a model that RAISES at a few evaluations (never at one of the first two of a fidelity: finding F4 of C14): a
+    # failed evaluation is recorded, stays NaN and must not be requested again either
+    ok_per_alpha, nfail = {}, [0]
+    frng = random.Random(case['fseed'] + 7)
+
+    def fail(k, alpha, x):
+        if case.get('failing') and ok_per_alpha.get(alpha, 0) >= 2 and nfail[0] < 3 and frng.random() < 0.2:
+            nfail[0] += 1
+            return 'raise'
+        ok_per_alpha[alpha] = ok_per_alpha.get(alpha, 0) + 1
+        return None
+    vectorized = case['vectorized'] and not case.get('failing')    # a vectorised model that raises aborts the whole batch
     comp, rec = cc.build_component(f, nin, ['y0'], case['alpha_lim'], case['beta_lim'], case['surr_lim'],
                                    case['domains'], case['norms_in'], None, case['kpl'],
-                                   vectorized=case['vectorized'], cost=cost_fn(case['cost']))
+                                   vectorized=vectorized, cost=cost_fn(case['cost']), fail=fail)
     na, nd = len(case['alpha_lim']), nin
     names = [v.name for v in comp.inputs]
     in_vars = list(comp.inputs)
@@ -131,6 +144,9 @@ def run_component_case(ctx, res, case, lines, post):
             z = [td.x_grids[n][c] for n, c in zip(names, coord)]
             xphys = {n: cc.scalar(v.denormalize(np.atleast_1d(np.float64(zz)))) for n, v, zz in zip(names, in_vars, z)}
             exp = f(tuple(al), xphys)['y0']
+            if case.get('failing') and np.isnan(ydict['y0']) and coord in td.error_map.get(al, {}):
+                res.hit('failed-evaluation-stays-nan')
+                continue
             if not abs(ydict['y0'] - exp) <= 1e-12 * max(1.0, abs(exp)):
                 res.failures.append({'kind': 'stored-value-is-not-the-model-output',
                                      'input': {**case, 'history': list(hist)},
@@ -205,11 +221,12 @@ def run_system_case(ctx, res, seed, cost_kind):
 def run(ctx: core.Ctx, only=None) -> core.Result:
     res = core.Result()
     res.rule = ('(A) scripted random admissible histories on real Components with 0-2 model-, 1-3 data-, 0-2 '
-                'surrogate-fidelity dims, knots_per_level 1-3, normalised inputs, serial and vectorised models, logging every '
+                'surrogate-fidelity dims, knots_per_level 1-3, normalised inputs, serial and vectorised models (30 %: serial models that '
+                'RAISE at up to 3 evaluations — failed points stay NaN and are never requested again), logging every '
                 'model call; (B) adaptive System.fit on a 2-component chain with cost profiles none/const/per-alpha/'
                 'per-call-varying and get_allocation vs ground truth. non-trivial = >= 4 activations (A) / any (B).')
     lines, post = [], []
-    keys = ('nin', 'alpha_lim', 'beta_lim', 'surr_lim', 'kpl', 'domains', 'norms_in', 'nsteps', 'fseed', 'vectorized', 'cost')
+    keys = ('nin', 'alpha_lim', 'beta_lim', 'surr_lim', 'kpl', 'domains', 'norms_in', 'nsteps', 'fseed', 'vectorized', 'cost', 'failing')
     if only is not None:
         cases = [o.get('input', o) for o in only]
     else:
@@ -219,7 +236,7 @@ def run(ctx: core.Ctx, only=None) -> core.Result:
             with core.guarded(res, 'scenario-raised', case):
                 run_system_case(ctx, res, case['seed'], case['cost_profile'])
             continue
-        case = {k: (tuple(case[k]) if k.endswith('_lim') else case[k]) for k in keys}
+        case = {k: (tuple(case[k]) if k.endswith('_lim') else case.get(k, False)) for k in keys}
         with core.guarded(res, 'scenario-raised', case):
             run_component_case(ctx, res, case, lines, post)
     if only is None:
